@@ -53,6 +53,7 @@ type Plan struct {
 	BackendKeepAlive   bool
 	ExtraInjectors     []ExtraInjector
 	ExtraInjectorsLate bool   // append them to HTTPHandler.HeaderInjectors after construction instead of passing them to the constructor
+	Burst              bool   // offer "burst": every pending delivery and client step in ONE controller step (race workers: goroutines of different connections then run unordered by the controller)
 	YieldInjector      bool   // park every handler at an injector placed first
 	ParkInjector       bool   // park every handler at an injector placed first until the drain phase
 	CancelAtStep       int    // >0: cancel the server context at that decision
@@ -288,6 +289,12 @@ var initCertOnce sync.Once
 func InitProcess() {
 	initCertOnce.Do(func() {
 		runtime.GOMAXPROCS(1)
+		if raceMode() && os.Getenv("VERIF_CHECK") == "C06" {
+			// the cross-connection race worker: goroutines of different connections woken by one
+			// controller step run on different Ps, so that per-P pools and run-queue order do not
+			// chain them into one happens-before line (reports are "seen once" by nature)
+			runtime.GOMAXPROCS(4)
+		}
 		// hellos without any extension can only use RSA key exchange
 		os.Setenv("GODEBUG", "tlsrsakex=1")
 		dir := os.Getenv("VERIF_TESTDATA")
@@ -917,6 +924,20 @@ func (w *World) enabled() []action {
 		}
 		if ok && (!quiet || w.worldQuiet()) {
 			acts = append(acts, action{"actor " + a.Name, func() { a.gate <- struct{}{} }})
+		}
+	}
+	if w.Plan.Burst && len(acts) >= 2 {
+		// everything that is enabled so far at once: the goroutines it wakes (serve loops and
+		// handlers of different connections) run in the same step, with no happens-before
+		// edge through the controller between them
+		each := append([]action(nil), acts...)
+		burst := action{"burst", func() {
+			for _, a := range each {
+				a.do()
+			}
+		}}
+		for i, n := 0, len(each); i < n; i++ {
+			acts = append(acts, burst) // weighted: about every second choice
 		}
 	}
 	// yield releases
